@@ -8,6 +8,10 @@ harness against math/big and against the executable specification `Spec.Meaning.
 -/
 import JsonV.Lemmas.MeaningSpec
 import JsonV.Lemmas.MeaningStr
+import JsonV.Lemmas.GlueMeaningTree
+import JsonV.Lemmas.GlueMeaningFuel
+import JsonV.Lemmas.GlueMeaningUnquote
+import JsonV.Props.C01
 
 namespace JsonV.Props.C03
 open JsonV JsonV.Spec.Meaning JsonV.Model.AnyDecode JsonV.Lemmas.MeaningRoutes JsonV.Lemmas.MeaningSpec
@@ -217,10 +221,96 @@ theorem elements_exact (c : Cache) (b : Bytes) (xs : List MTree) (v : GoAny F)
 
 /-! ### Full statements that are NOT proved (validated by the harness only) -/
 
-/-- Fuel: the amount of fuel used by `parseTree` never turns a valid text into an invalid one. -/
-def fuel_suffices_full : Prop := ∀ (b : Bytes) (n : Nat) (t : MTree), parseTreeF n b = some t → parseTree b = some t
-
 /-- `strconv.ParseFloat` is the correctly rounded value of the literal (the `FloatParse` parameter meets its spec). -/
 def floatParse_correct_full (fp : FloatParse UInt64) : Prop := ∀ (lit rest : Bytes), lexNum lit = some (lit, rest) → rest = [] → fp lit = f64Round lit
+
+/-! ### Glue: the meaning spec against slice C01's grammar, scanners and unquote model
+
+`Spec/Meaning.lean` (this slice) and `Spec/Grammar.lean` + `Model/WireDecode.lean` + `Model/Validate.lean` (slice C01)
+were written independently.  The theorems below connect them; C01's modules are imported read-only. -/
+
+section Glue
+open JsonV.Spec.Grammar JsonV.Model.Wire
+
+/-- Fuel never matters: a parse that succeeds with SOME amount of fuel is the result of `parseTree`
+(whose fuel is `2·len + 2`).  So `any_meaning` and the other theorems hold for "the text has a tree", not merely
+"the text has a tree within this much fuel". -/
+theorem fuel_suffices (b : Bytes) (n : Nat) (t : MTree) (h : parseTreeF n b = some t) : parseTree b = some t :=
+  JsonV.Lemmas.GlueMeaningFuel.parseTreeF_mono n b t h _ (by omega)
+
+/-- …and more fuel than `parseTree` uses changes nothing. -/
+theorem fuel_irrelevant (b : Bytes) (t : MTree) (h : parseTree b = some t) (m : Nat) (hm : 2 * b.length ≤ m) :
+    parseTreeF m b = some t :=
+  JsonV.Lemmas.GlueMeaningFuel.parseTreeF_mono _ b t h m hm
+
+/-- `any_meaning`, unconditional on fuel. -/
+theorem any_meaning_any_fuel (c : Cache) (b : Bytes) (n : Nat) (t : MTree) (h : parseTreeF n b = some t)
+    (hnd : t.noDup = true) (hdep : t.depth ≤ maxDepth) :
+    fast fp c b = match toGo fp t with
+      | some v => .ok v
+      | none => .error .range :=
+  any_meaning fp c b t (fuel_suffices b n t h) hnd hdep
+
+example : parseTreeF 1000 exampleText = some exampleTree := by rfl
+
+/-- Numbers: what `lexNum` accepts is a `number` of the C01 grammar, and it cuts the input right after it. -/
+theorem lexNum_sound (b l r : Bytes) (h : lexNum b = some (l, r)) : b = l ++ r ∧ JNumber l :=
+  JsonV.Lemmas.GlueMeaningLex.lexNum_spec h
+
+example : lexNum [0x2D, 0x31, 0x2E, 0x35, 0x65, 0x33, 0x2C] = some ([0x2D, 0x31, 0x2E, 0x35, 0x65, 0x33], [0x2C]) := by rfl
+
+/-- Strings: what `lexStr` accepts (after the opening quote) is a `string` of the C01 grammar under strict UTF-8. -/
+theorem lexStr_sound (r s rest : Bytes) (h : lexStr r = some (s, rest)) :
+    ∃ lit, JString true lit ∧ 0x22 :: r = lit ++ rest :=
+  JsonV.Lemmas.GlueMeaningStr.lexStr_spec h
+
+/-- A literal that has a meaning is a string of the grammar, hence (C01 `string_complete`) the model of
+jsonwire.ConsumeString accepts exactly all of it under strict UTF-8. -/
+theorem unescape_scanned (q s : Bytes) (h : unescape q = some s) :
+    JString true q ∧ ∃ f, consumeString q true = (q.length, f, .ok) := by
+  have hj : JString true q := by
+    unfold unescape at h
+    split at h
+    · next r =>
+      split at h
+      · next s' hl =>
+        obtain ⟨lit, hlit, hq⟩ := JsonV.Lemmas.GlueMeaningStr.lexStr_spec hl
+        rw [List.append_nil] at hq
+        rw [hq]; exact hlit
+      · simp at h
+    · simp at h
+  exact ⟨hj, JsonV.Props.C01.string_complete q true q.length (Nat.le_refl _) (by rw [List.take_length]; exact hj)⟩
+
+/-- The RFC 8259 meaning of a string literal IS what the model of jsonwire.AppendUnquote returns (with a nil error):
+the spec's `unescape` and the code-shaped `unquote` (tied to the Go code by C01/quote's correspondence) agree. -/
+theorem unescape_eq_unquote (q s : Bytes) (h : unescape q = some s) : unquote q = (s, .ok) :=
+  JsonV.Lemmas.GlueMeaningUnquote.unescape_eq_unquote q s h
+
+example : unquote [0x22, 0x5C, 0x75, 0x64, 0x38, 0x33, 0x64, 0x5C, 0x75, 0x64, 0x65, 0x30, 0x30, 0x22]
+    = ([0xF0, 0x9F, 0x98, 0x80], .ok) :=
+  unescape_eq_unquote _ _ (by rfl)
+
+/-- Texts: whatever the meaning spec parses is `ws value ws` of the C01 grammar (strict UTF-8; duplicate names allowed,
+so the key function is irrelevant), nested no deeper than the tree. -/
+theorem meaning_implies_grammar (b : Bytes) (t : MTree) (md : Nat) (h : parseTree b = some t) (hd : t.depth ≤ md) :
+    JText ⟨true, true⟩ md id b :=
+  JsonV.Lemmas.GlueMeaningTree.parseTreeF_grammar _ b t md h hd
+
+/-- In particular, within the library's nesting limit, it is a text of exactly the grammar instance that C01's
+validator is proved sound for (`valid_sound_partial` with default UTF-8 handling). -/
+theorem meaning_implies_grammar_lib (b : Bytes) (t : MTree) (h : parseTree b = some t) (hd : t.depth ≤ maxDepth) :
+    JText ⟨true, true⟩ JsonV.Model.Validate.maxNestingDepth id b :=
+  meaning_implies_grammar b t _ h hd
+
+example : JText ⟨true, true⟩ 2 id exampleText := meaning_implies_grammar exampleText exampleTree 2 (by rfl) (by decide)
+
+/-- Converse directions, NOT proved (validated by the harness op `corr-spec-vs-validator`). -/
+def grammar_implies_meaning_full : Prop := ∀ (b : Bytes) (md : Nat), JText ⟨true, true⟩ md id b → ∃ t, parseTree b = some t ∧ t.depth ≤ md
+
+def lexNum_iff_full : Prop := ∀ (b : Bytes) (n : Nat), (∃ l r, lexNum b = some (l, r) ∧ l.length = n) ↔ consumeNumber b = (n, .ok)
+
+def spec_iff_validator_full : Prop := ∀ (b : Bytes), (∃ t, parseTree b = some t ∧ t.depth ≤ maxDepth) ↔ JsonV.Model.Validate.isValid ⟨false, true⟩ b = true
+
+end Glue
 
 end JsonV.Props.C03
